@@ -250,18 +250,23 @@ var (
 
 func loadKF() {
 	kf = map[string]finding{}
-	b, err := os.ReadFile(filepath.Join(Root(), "known_findings.json"))
-	if err != nil {
-		return
-	}
-	var doc struct {
-		Findings []finding `json:"findings"`
-	}
-	if json.Unmarshal(b, &doc) != nil {
-		return
-	}
-	for _, f := range doc.Findings {
-		kf[f.ID] = f
+	paths := []string{filepath.Join(Root(), "known_findings.json")}
+	more, _ := filepath.Glob(filepath.Join(Root(), "known_findings.d", "*.json"))
+	paths = append(paths, more...)
+	for _, p := range paths {
+		b, err := os.ReadFile(p)
+		if err != nil {
+			continue
+		}
+		var doc struct {
+			Findings []finding `json:"findings"`
+		}
+		if json.Unmarshal(b, &doc) != nil {
+			continue
+		}
+		for _, f := range doc.Findings {
+			kf[f.ID] = f
+		}
 	}
 }
 
